@@ -18,7 +18,8 @@ ORDER = []
 
 
 class LoopSpec:
-    def __init__(self, index=None, inv=(), decreases=None, modifies=None, elem=None):
+    def __init__(self, index=None, inv=(), decreases=None, modifies=None, elem=None, **extra):
+        self.extra = extra
         self.index = index
         self.inv = list(inv)
         self.decreases = decreases
